@@ -23,11 +23,14 @@ DetachedGetsCancelled == \A i \in Inst : (g.created[i] /\ \A k \in Keys : g.reg[
 View == <<cfg, g, o, ac>>
 \* the explicit blocking predicate agrees with ENABLED
 BlockedOK == \A a \in Actors : (~AtRest(a)) => (Blocked(a) <=> ~ENABLED Micro(a))
+NoFetch(c) == c.fetch = [s \in Subs |-> FALSE]
 CfgAll(c) == TRUE
+\* both subscribers of one trigger resolve a nested fetch per event
+CfgFetch(c) == c.key = [s \in Subs |-> 1] /\ c.filt = [s \in Subs |-> "all"] /\ c.conn = [s \in Subs |-> s] /\ c.fetch = [s \in Subs |-> TRUE]
 \* both subscribers on one trigger, own connections / different triggers on one connection
-CfgSame(c) == c.key = [s \in Subs |-> 1] /\ c.filt[1] = "all" /\ c.conn = [s \in Subs |-> s]
-CfgDiff(c) == c.key = [s \in Subs |-> s] /\ c.filt[1] = "all" /\ c.filt[2] = "all" /\ c.conn = [s \in Subs |-> 1]
-CfgOne(c) == c.key = [s \in Subs |-> 1] /\ c.filt = [s \in Subs |-> "all"] /\ c.conn = [s \in Subs |-> s]
+CfgSame(c) == NoFetch(c) /\ c.key = [s \in Subs |-> 1] /\ c.filt[1] = "all" /\ c.conn = [s \in Subs |-> s]
+CfgDiff(c) == NoFetch(c) /\ c.key = [s \in Subs |-> s] /\ c.filt[1] = "all" /\ c.filt[2] = "all" /\ c.conn = [s \in Subs |-> 1]
+CfgOne(c) == NoFetch(c) /\ c.key = [s \in Subs |-> 1] /\ c.filt = [s \in Subs |-> "all"] /\ c.conn = [s \in Subs |-> s]
 StartOK == {"ok"}
 StartAll == {"ok", "fail", "ctx"}
 =============================================================================
